@@ -402,8 +402,8 @@ SubDef def = [] {
 #ifndef VERIF_ENGINE_FUZZ
   d.gen = [] {
     auto recent = rc::gen::weightedOneOf<int64_t>({{6, rc::gen::just<int64_t>(0)}, {2, rc::gen::just<int64_t>(1)}, {1, range(2, 8)}});
-    auto kind = rc::gen::weightedOneOf<int64_t>({{4, rc::gen::just<int64_t>(K_VALID)}, {2, rc::gen::just<int64_t>(K_NXDOMAIN)}, {6, rc::gen::just<int64_t>(K_SERVFAIL)}, {1, rc::gen::just<int64_t>(K_FORMERR)},
-                                                  {3, rc::gen::just<int64_t>(K_REFUSED)}, {2, rc::gen::just<int64_t>(K_NOTREPLY)}, {2, rc::gen::just<int64_t>(K_UNKNOWNID)}});
+    auto kind = rc::gen::weightedOneOf<int64_t>({{4, rc::gen::just<int64_t>(K_VALID)}, {2, rc::gen::just<int64_t>(K_NXDOMAIN)}, {8, rc::gen::just<int64_t>(K_SERVFAIL)}, {1, rc::gen::just<int64_t>(K_FORMERR)},
+                                                  {4, rc::gen::just<int64_t>(K_REFUSED)}, {2, rc::gen::just<int64_t>(K_NOTREPLY)}, {2, rc::gen::just<int64_t>(K_UNKNOWNID)}});
     auto adv = rc::gen::weightedOneOf<int64_t>({{3, range(0, 1000)}, {2, range(900, 1100)}, {2, range(3000, 4200)}, {1, range(4900, 5100)}, {1, range(0, 6000)}});
     auto opg = rc::gen::weightedOneOf<Op>({
       {6, mkop(REQUEST, {range(0, kNDomains - 1), rc::gen::weightedOneOf<int64_t>({{5, rc::gen::just<int64_t>(0)}, {1, rc::gen::just<int64_t>(1)}, {1, rc::gen::just<int64_t>(2)}})})},
@@ -412,7 +412,7 @@ SubDef def = [] {
       {3, mkop(DUP, {rc::gen::weightedOneOf<int64_t>({{4, rc::gen::just<int64_t>(0)}, {1, range(1, 5)}})})},
       {4, mkop(ADVANCE, {adv})},
     });
-    return scenarioOf(fixedOps({mkop(CFG, {range(0, 2)}), mkop(REQUEST, {range(0, kNDomains - 1), range(0, 2)})}), opsOf(opg));
+    return scenarioOf(fixedOps({mkop(CFG, {rc::gen::weightedOneOf<int64_t>({{1, rc::gen::just<int64_t>(0)}, {3, rc::gen::just<int64_t>(1)}, {3, rc::gen::just<int64_t>(2)}})}), mkop(REQUEST, {range(0, kNDomains - 1), range(0, 2)})}), opsOf(opg));
   };
 #endif
   return d;
